@@ -48,6 +48,16 @@ def switchOf : Fmt → Option Policy
   | .verilog => some .default  -- verilog/parser.py:112-116
   | .eblif => none             -- eblif_parser.py:83-86 (no switch; elements get the caller's policy)
 
+/-- A parse body that can READ the policy (every element it creates stores it) but has no way to
+    ASSIGN it.  This is how the EBLIF reader is modelled: `eblif_parser.py` / `eblif_tokenizer.py`
+    never mention `namespace_manager` at all (a syntactic fact the harness re-checks on every run),
+    so its body is given the policy as an argument and returns only the rest of the state. -/
+abbrev ROBody (ρ ε α : Type) := Policy → ρ → ρ × Except ε α
+
+def liftRO {ρ ε α : Type} (b : ROBody ρ ε α) : Call ρ ε α := fun s =>
+  let r := b s.policy s.rest
+  ({ policy := s.policy, rest := r.1 }, r.2)
+
 /-- `XParser.parse()` with the parse body abstracted. -/
 def read {ρ ε α : Type} (f : Fmt) (body : Call ρ ε α) : Call ρ ε α :=
   match switchOf f with
